@@ -309,16 +309,25 @@ def cli_standin(reason):
         elif "excess positional" not in kinds and sh['np'] <= 2 and sh['nc'] <= 2:
             bad.append((sh, kinds))
     mism = []
-    for kind in ("fn", "struct"):
+    for kind in ("fn", "struct", "method", "variant"):
         sigs, calls, wants = {}, [], []
+        if kind == "method":
+            sigs[None] = ("Recv", "type Recv = {\n    tag: int\n}\nlet recv = Recv(0)\n")
         for sh, want in good:
             np_, hd = sh['np'], sh['has_default']
-            if kind == "struct" and np_ == 0:
+            if kind in ("struct", "variant") and np_ == 0:
                 continue
             key = (np_, tuple(hd[:np_]))
             if key not in sigs:
-                name = "%s%d_%s" % ("f" if kind == "fn" else "S", np_, "".join("d" if x else "r" for x in hd[:np_]))
-                if kind == "fn":
+                name = "%s%d_%s" % (dict(fn="f", struct="S", method="m", variant="V")[kind], np_, "".join("d" if x else "r" for x in hd[:np_]))
+                if kind == "method":
+                    params = "".join(", %s: int%s" % (NAMES[i], " = %d" % (100 + i) if hd[i] else "") for i in range(np_))
+                    body = " .. \",\" .. ".join(NAMES[i] for i in range(np_)) if np_ else "\"\""
+                    sigs[key] = (name, "extend Recv {\n  fn %s(self%s) -> string {\n    \"\" .. %s\n  }\n}\n" % (name, params, body))
+                elif kind == "variant":
+                    fields = ", ".join("%s: int%s" % (NAMES[i], " = %d" % (100 + i) if hd[i] else "") for i in range(np_))
+                    sigs[key] = (name, "type E%s =\n  | %s(%s)\n" % (name, name, fields))
+                elif kind == "fn":
                     params = ", ".join("%s: int%s" % (NAMES[i], " = %d" % (100 + i) if hd[i] else "") for i in range(np_))
                     body = " .. \",\" .. ".join(NAMES[i] for i in range(np_)) if np_ else "\"\""
                     sigs[key] = (name, "fn %s(%s) -> string {\n  \"\" .. %s\n}\n" % (name, params, body))
@@ -329,6 +338,13 @@ def cli_standin(reason):
             args = ", ".join(("%s = %d" % (NAMES[sh['choice'][j] - 1], 10 + j)) if sh['choice'][j] else str(10 + j) for j in range(sh['nc']))
             if kind == "fn":
                 calls.append("println(%s(%s))" % (name, args))
+            elif kind == "method":
+                calls.append("println(recv.%s(%s))" % (name, args))
+            elif kind == "variant":
+                k = len(calls)
+                binds = ", ".join("%s = q%d%s" % (NAMES[i], k, NAMES[i]) for i in range(np_))
+                calls.append("let v%d = E%s.%s(%s)\nmatch v%d {\n    .%s(%s) -> println(\"\" .. %s)\n}" % (
+                    k, name, name, args, k, name, binds, " .. \",\" .. ".join("q%d%s" % (k, NAMES[i]) for i in range(np_))))
             else:
                 calls.append("let v%d = %s(%s)\nprintln(\"\" .. %s)" % (len(calls), name, args, " .. \",\" .. ".join("v%d.%s" % (len(calls), NAMES[i]) for i in range(np_))))
             wants.append(",".join(str(x) for x in want))
@@ -371,7 +387,7 @@ def cli_standin(reason):
             mism.append("misuse %s accepted without diagnostic: `%s`" % (sorted(kinds), _program(sh).strip().split("\n")[-1]))
     ob = E.Obligation("C18.cli.named_args.sampled", ["C18"], UNIT, "calculate_func_call_order / calculate_named_arg_order via the real CLI",
                       "bounded: run on the real CLI", E.FAILED if mism else E.DISCHARGED, "; ".join(mism[:6]), time.time() - t0, R, "",
-                      "%d well-formed call shapes (arity <= 3, <= 3 arguments; free functions and struct constructors) and %d misuse shapes "
+                      "%d well-formed call shapes (arity <= 3, <= 3 arguments) for each of four callee kinds: free function, struct constructor, member function with method syntax, enum variant constructor and %d misuse shapes "
                       "(arity <= 2, <= 2 arguments); black-box stand-in, not a proof" % (len(good), nbad),
                       "stand-in because: %s. A call with named/omitted arguments prints exactly what the positional call with the defaults filled in "
                       "prints; unknown, duplicate, missing and positional-after-named arguments are rejected; never a host panic" % reason[:300])
@@ -382,10 +398,19 @@ def cli_standin(reason):
 
 def run(tier="quick"):
     try:
-        return _run_sliced(tier)
+        obs, info = _run_sliced(tier)
     except (E.Undecided, S.SliceError) as ex:
-        # the functions left the reach of the function-level check (data structure or anchor changed): bounded stand-in
+        # the functions left the reach of the function-level check (data structure or anchor changed): bounded stand-in only
         return cli_standin(str(ex).split("\n")[0])
+    if os.environ.get("ABRA_VERIF_PROP") in (None, "", "C18"):
+        # the same stand-in ALSO runs next to the function-level obligations: it is the only thing that exercises what lies around
+        # the two sliced functions (update_function_arg_info for each callee kind, the self parameter of methods, the consumers
+        # of function_call_arg_order in the type checker and translator)
+        o2, i2 = cli_standin("covers the code around the sliced functions (argument details per callee kind, consumers of the recorded order)")
+        obs += o2
+        info['assumptions'] = list(info.get('assumptions', [])) + ["U13: `C18.cli.named_args.sampled` is a sampled black-box run on the real CLI, bounded, not a proof"]
+        info['trusted_base'] = list(info.get('trusted_base', [])) + [x for x in i2['trusted_base'] if x not in info.get('trusted_base', [])]
+    return obs, info
 
 
 def _run_sliced(tier="quick"):
